@@ -84,7 +84,7 @@ def gen(tier, seed):
         for f in sorted(os.listdir(cp)):
             progs.append([l.strip() for l in open(os.path.join(cp, f)) if l.strip() and not l.startswith("#")])
     r = C.rng(seed, "c14")
-    n = 20000 if tier == "thorough" else 2500
+    n = 40000 if tier == "thorough" else 8000
     for pid in range(n):
         progs.append(gen_program(r, pid + 1000, tier == "thorough"))
     return progs
